@@ -1,7 +1,7 @@
 ---------------------------- MODULE PyImportCfg ----------------------------
 (* Configurations of the import model: which modules exist, what their bodies contain, what   *)
-(* the main program imports.  No variables here: PyImport (semantics) and PyImportGen (random *)
-(* sampling of the rich family) both extend this module.                                     *)
+(* the main program imports.  No variables here; PyImport (the semantics) extends this module. *)
+(* CfgOK is the whole family; the named families below are the exhaustively explored parts.  *)
 EXTENDS Integers, Sequences, FiniteSets, TLC
 
 CONSTANT Mods                 \* importable modules, e.g. {"ma", "mb", "mc"}
@@ -53,19 +53,35 @@ GraphFamily(forms) ==
       f \in [Mods -> OneImport(forms)], s \in StmtsOver(forms, Mods) }
 UniformFamily(forms) == UNION { GraphFamily({f}) : f \in forms }
 
-(* --- family "diamond": two import statements in ma (two paths to the same module)           *)
+(* The model treats module names uniformly, so two graph configurations that differ only by   *)
+(* exchanging the names mb and mc have the same behaviours up to that renaming.  The quick    *)
+(* tier explores one representative of each such pair (the one with the smaller code).        *)
+FormNo(f) == CASE f = "import" -> 0 [] f = "import_as" -> 1 [] f = "from" -> 2 [] f = "from_as" -> 3 [] f = "star" -> 4 [] OTHER -> 5
+ModNo(t)  == CASE t = "ma" -> 0 [] t = "mb" -> 1 [] t = "mc" -> 2 [] t = "md" -> 3 [] OTHER -> 4
+StmtNo(s) == FormNo(s.form) * 5 + ModNo(s.t)
+PPNo(c)   == IF c.pre # <<>> THEN 1 + StmtNo(c.pre[1]) ELSE IF c.post # <<>> THEN 31 + StmtNo(c.post[1]) ELSE 0
+CodeOf(c) == ((PPNo(c.mods["ma"]) * 61 + PPNo(c.mods["mb"])) * 61 + PPNo(c.mods["mc"])) * 30 + StmtNo(c.main[1])
+SwapName(n) == IF n = "mb" THEN "mc" ELSE IF n = "mc" THEN "mb" ELSE n
+SwapStmts(q) == IF q = <<>> THEN <<>> ELSE << [q[1] EXCEPT !.t = SwapName(@)] >>
+SwapCfg(c) == [mods |-> [m \in Mods |-> [c.mods[SwapName(m)] EXCEPT !.pre = SwapStmts(@), !.post = SwapStmts(@)]],
+               main |-> << [c.main[1] EXCEPT !.t = SwapName(@)], c.main[2] >>]
+GraphFamilySym(forms) == { c \in GraphFamily(forms) : CodeOf(c) <= CodeOf(SwapCfg(c)) }
+
+(* --- family "diamond": two import statements in ma (two paths to the same module); the main  *)
+(* program imports ma under another name and then again as ma.                                *)
 TwoImports(forms) == { [pre |-> <<s1>>, post |-> <<s2>>] : s1 \in StmtsOver(forms, Mods \ {"ma"}), s2 \in StmtsOver(forms, Mods \ {"ma"}) }
 DiamondFamily(forms) ==
   { [mods |-> [m \in Mods |-> IF m = "ma" THEN Plain(d.pre, d.post) ELSE Plain(f[m].pre, f[m].post)],
      main |-> <<s, [form |-> "import", t |-> "ma"]>>] :
-      d \in TwoImports(forms), f \in [Mods \ {"ma"} -> OneImport(forms)], s \in StmtsOver(forms, Mods) }
+      d \in TwoImports(forms), f \in [Mods \ {"ma"} -> OneImport(forms)], s \in StmtsOver({"import_as"}, {"ma"}) }
 
 (* --- family "flat": the modules import nothing; the main program is any sequence of 1..3    *)
 (* statements over all forms (plus one import of the missing module); ma is a source file, mb *)
 (* a Go module with Python source, any further module a Go module with globals only.          *)
 FlatMods(a) == [m \in Mods |-> [kind |-> IF m = "ma" THEN "src" ELSE IF m = "mb" THEN "gosrc" ELSE "goglob",
                                 pre |-> <<>>, post |-> <<>>, all |-> a, raises |-> "no"]]
-FlatStmts == StmtsOver(Forms, {"ma", "mb"}) \cup {[form |-> "import", t |-> Missing], [form |-> "from", t |-> Missing]}
+FlatStmts == StmtsOver(Forms, {"ma", "mb"}) \cup StmtsOver({"import_as", "from", "star"}, Mods \ {"ma", "mb"})
+             \cup {[form |-> "import", t |-> Missing], [form |-> "from", t |-> Missing]}
 SeqsUpTo(S, n) == {<<a>> : a \in S} \cup (IF n >= 2 THEN {<<a, b>> : a \in S, b \in S} ELSE {})
                                \cup (IF n >= 3 THEN {<<a, b, c>> : a \in S, b \in S, c \in S} ELSE {})
 FlatFamily(n) == { [mods |-> FlatMods(a), main |-> s] : a \in AllVariants, s \in SeqsUpTo(FlatStmts, n) }
